@@ -149,13 +149,23 @@ inline void writeVal(WriteStream &w, const Val &x)
   case T_ARRAYVIEW_INT: {
     std::vector<int> tmp = x.v;
     ArrayView<int> av(tmp);
-    w << static_cast<const AbstractArray<int> &>(av);
+    // through the interface, or the wrapper object itself (what `writer << myArray` is for a user holding a concrete wrapper):
+    // both are "an array written through a WriteStream" and must produce the array format
+    if (x.v.size() % 2 == 0)
+      w << static_cast<const AbstractArray<int> &>(av);
+    else
+      w << av;
     break;
   }
   case T_OWNEDARRAY_F64: {
     std::vector<double> tmp(x.v.begin(), x.v.end());
     OwnedArray<double> oa(tmp);
-    w << static_cast<const AbstractArray<double> &>(oa);
+    // through the interface, or the wrapper object itself (what `writer << myArray` is for a user holding a concrete wrapper):
+    // both are "an array written through a WriteStream" and must produce the array format
+    if (x.v.size() % 2 == 0)
+      w << static_cast<const AbstractArray<double> &>(oa);
+    else
+      w << oa;
     break;
   }
   case T_FIXEDARRAY_U8: {
@@ -163,7 +173,12 @@ inline void writeVal(WriteStream &w, const Val &x)
     for (int e : x.v)
       tmp.push_back((uint8_t)e);
     FixedArray<uint8_t> fa(tmp);
-    w << static_cast<const AbstractArray<uint8_t> &>(fa);
+    // through the interface, or the wrapper object itself (what `writer << myArray` is for a user holding a concrete wrapper):
+    // both are "an array written through a WriteStream" and must produce the array format
+    if (x.v.size() % 2 == 0)
+      w << static_cast<const AbstractArray<uint8_t> &>(fa);
+    else
+      w << fa;
     break;
   }
   case T_LONG_STRING: w << longString(x.n); break;
